@@ -237,6 +237,9 @@ def run_cursor(words):
     return " ; ".join(out)
 
 
+_LINEAGE_REUSE = {}
+
+
 def handle(line: str) -> str:
     words = line.split()
     if not words:
@@ -777,21 +780,32 @@ def handle(line: str) -> str:
                 if ordered:
                     return "[" + ",".join(show_src(x) for x in l) + "]"
                 return "[" + ",".join(sorted(set(show_src(x) for x in l))) + "]"
-            g = Getter()
-            an = TableLineageAnalyzer(g)
-            out = io.StringIO()
-            try:
-                with contextlib.redirect_stdout(out):
-                    if isinstance(sts[0], cnode.ASTInsertSelectStatement):
-                        r = an.get_insert_table_lineage(sts[0])
-                        body = "OK I " + " ".join("%s=%s" % (show_src(t), show_srcs(ss)) for t, ss in r.all_columns())
-                    else:
+            def analyse(an):
+                out = io.StringIO()
+                try:
+                    with contextlib.redirect_stdout(out):
+                        if isinstance(sts[0], cnode.ASTInsertSelectStatement):
+                            r = an.get_insert_table_lineage(sts[0])
+                            return "OK I " + " ".join("%s=%s" % (show_src(t), show_srcs(ss)) for t, ss in r.all_columns())
                         r = an.get_select_table_lineage(sts[0])
-                        body = "OK S " + " ".join("%d:%s=%s" % (c.column_idx, so(c.column_name), show_srcs(ss)) for c, ss in r.all_columns())
-            except RecursionError:
-                return "ERR Recursion"
-            except Exception as e:  # noqa
-                return "ERR " + err_name(e)
+                        return "OK S " + " ".join("%d:%s=%s" % (c.column_idx, so(c.column_name), show_srcs(ss)) for c, ss in r.all_columns())
+                except RecursionError:
+                    return "ERR Recursion"
+                except Exception as e:  # noqa
+                    return "ERR " + err_name(e)
+            g = Getter()
+            body = analyse(TableLineageAnalyzer(g))
+            if not body.startswith("OK "):
+                return body
+            # the same statement on an analyser that has already answered other statements over this catalogue in this process:
+            # the lineage must be the same (only the provider log may shrink)
+            key = tuple(sorted(cat.items()))
+            if key not in _LINEAGE_REUSE:
+                g2 = Getter()
+                _LINEAGE_REUSE[key] = TableLineageAnalyzer(g2)
+            body2 = analyse(_LINEAGE_REUSE[key])
+            if body2 != body:
+                return "ERR HistoryDependent " + body2[:160] + " <> " + body[:160]
             return body + " ; ASKED " + ",".join(so(k) for k in g.asked)
         except Exception as e:  # noqa
             return "BAD-REQUEST " + repr(e)
